@@ -334,7 +334,9 @@ func (cc *grpcClientConn) Receive(msg any) error {
 	if cc.responseHeader.Get(grpcHeaderStatus) != "" {
 		// We got what gRPC calls a trailers-only response, which puts the trailing
 		// metadata (including errors) into HTTP headers. validateResponse has
-		// already extracted the error.
+		// already extracted the error. Whatever ended the body that came with
+		// such a response, the call is over: later Receives report it too.
+		cc.duplexCall.SetError(err)
 		return err
 	}
 	// See if the server sent an explicit error in the HTTP or gRPC-Web trailers.
